@@ -204,6 +204,10 @@ class Interp:
         ctx.interp = self
         self.lib = lib
         self._classrefs = {}
+        self._cur_label = None
+        self._cur_frame = None
+        if hasattr(lib, "on_new_path"):
+            lib.on_new_path(self)
 
     # ------------------------------------------------------------------ names / modules
     def classref(self, qualname):
@@ -995,6 +999,11 @@ class Interp:
             for (pn, _), v in zip(ct.params, args):
                 loc[pn] = v
             loc.update(kwargs)
+        from .verify import snapshot
+        old = {k: snapshot(self, v) for k, v in loc.items()}
+        loc = dict(loc)
+        loc["old"] = NS(old, "entry value")
+        loc["ghost"] = self.ctx.ghost
         a = NS(loc, "argument")
         label = self._cur_label
         for i, rq in enumerate(ct._requires):
@@ -1010,6 +1019,20 @@ class Interp:
             cond = cond if is_z3(cond) else z3.BoolVal(bool(cond))
             if self.ctx.decide(cond):
                 raise PyRaise(ExcVal(exc), node)
+        # frame: havoc what the callee may modify
+        mf = getattr(ct, "modifies_fields", None)
+        if mf is not None and mf:
+            recv = loc.get("self")
+            if isinstance(recv, Obj):
+                self.havoc_object(recv, "self", node, set(mf), rebind=True)
+        for pn in getattr(ct, "modifies_params", []) or []:
+            if pn in loc and not _immutable(loc[pn]):
+                self.havoc_object(loc[pn], pn, node)
+        creates = getattr(ct, "creates", None)
+        if creates:
+            recv = loc.get("self")
+            for f, t in creates.items():
+                recv.fields[f] = t.fresh(self.ctx, "new.%s" % f)
         if ct.returns is None:
             ret = None
         else:
@@ -1495,7 +1518,7 @@ class Interp:
                 fields.add("*")
         return fields
 
-    def havoc_object(self, v, name, node, fields=None):
+    def havoc_object(self, v, name, node, fields=None, rebind=False):
         ctx = self.ctx
         if isinstance(v, SymList):
             n = ctx.fresh(name + "_len", Int)
@@ -1512,7 +1535,7 @@ class Interp:
                     pass
                 else:
                     r = self.lib.havoc_object(self, x, "%s.%s" % (name, f), node)
-                    if r is NotImplemented:
+                    if r is NotImplemented or rebind:
                         v.fields[f] = self.fresh_like(x, "%s.%s" % (name, f), node)
             return
         r = self.lib.havoc_object(self, v, name, node)
